@@ -41,18 +41,31 @@ Record Quirks17 := mkQ17 {
   (* engine.go Start, case id := <-e.removeWatcher: `watchers[id].close()`
      without a presence check.  on: nil dereference, process dies.
      off (repair): cancelling an absent id is a no-op. *)
-  q_double_cancel_nil : bool
+  q_double_cancel_nil : bool;
+  (* engine.go Start, case req := <-e.updateDB: `req.expr.Eval(ctx, global)` runs
+     on the loop goroutine with no recover.  on: an update expression whose
+     evaluation panics kills the process (the caller is never answered).
+     off (repair): the panic is recovered and answered like an evaluation error. *)
+  q_update_panic_kills : bool
 }.
-Definition quirks17_off := mkQ17 false false.
+Definition quirks17_off := mkQ17 false false false.
 Definition quirks17_eqb (a b : Quirks17) : bool :=
-  Bool.eqb (q_cancel_from_loop a) (q_cancel_from_loop b) && Bool.eqb (q_double_cancel_nil a) (q_double_cancel_nil b).
+  Bool.eqb (q_cancel_from_loop a) (q_cancel_from_loop b) && Bool.eqb (q_double_cancel_nil a) (q_double_cancel_nil b)
+  && Bool.eqb (q_update_panic_kills a) (q_update_panic_kills b).
+
+(* what evaluating an expression / calling onupdate can do *)
+Inductive eres (V : Type) := EVal (v : V) | EErr | EPanic.   (* value | error returned | Go panic *)
+Arguments EVal {V} _.
+Arguments EErr {V}.
+Arguments EPanic {V}.
+Inductive cbres := CbOk | CbErr | CbPanic.                   (* nil | error returned | Go panic *)
 
 Section Engine.
   Variables V E : Type.
-  Variable eval : E -> V -> option V.
+  Variable eval : E -> V -> eres V.
 
   Inductive msg := MUpdate (v : V) | MClose (clean : bool). (* onupdate(v) | onclose(nil) / onclose(err) *)
-  Definition callback := nat -> V -> bool.
+  Definition callback := nat -> V -> cbres.
   Record watcher := mkW { w_id : Z; w_expr : E; w_cb : callback; w_n : nat }.
   Inductive event :=
   | Update (e : E) | Observe (i : Z) (e : E) (cb : callback) | Cancel (i : Z) | Hangup | Stop.
@@ -78,12 +91,20 @@ Section Engine.
   Inductive uout := UKeep (w : watcher) | URemove | UBlock.
   Definition w_update (q : Quirks17) (w : watcher) (db : V) : list msg * uout :=
     match eval (w_expr w) db with
-    | None =>                                   (* value, err := w.expr.Eval; err != nil *)
+    | EErr =>                                   (* value, err := w.expr.Eval; err != nil *)
         if q_cancel_from_loop q then ([], UBlock)             (* w.cancel() never returns; onclose(err) not reached *)
         else ([MClose false], URemove)                        (* repair: onclose(err), loop deletes the watcher *)
-    | Some v =>
-        if w_cb w (w_n w) v then ([MUpdate v], UKeep (bump w))
-        else ([MUpdate v], if q_cancel_from_loop q then UBlock else URemove)
+    | EPanic =>                                 (* the deferred recover: onclose("update panic: ...") *)
+        (* repaired code: the named result `alive` is still false, the loop drops the watcher;
+           old code: update had no result, the closed watcher stayed registered *)
+        ([MClose false], if q_cancel_from_loop q then UKeep w else URemove)
+    | EVal v =>
+        match w_cb w (w_n w) v with
+        | CbOk => ([MUpdate v], UKeep (bump w))
+        | CbErr => ([MUpdate v], if q_cancel_from_loop q then UBlock else URemove)
+        | CbPanic =>                            (* onupdate was entered with v, then the recover path as above *)
+            ([MUpdate v; MClose false], if q_cancel_from_loop q then UKeep (bump w) else URemove)
+        end
     end.
 
   (* for _, w := range watchers { w.update(ctx, global) }  over the chosen order *)
@@ -109,9 +130,14 @@ Section Engine.
         match ev with
         | Update e =>
             match eval e (s_db st) with
-            | None =>      (* req.failed <- err; continue *)
+            | EErr =>      (* req.failed <- err; continue *)
                 mkS (s_db st) (s_ws st) Running (s_trace st) (s_acks st ++ [AUpd false]) (S n)
-            | Some v =>    (* req.failed <- nil; global = ...; range watchers *)
+            | EPanic =>    (* nothing recovers a panic of req.expr.Eval on the loop goroutine *)
+                if q_update_panic_kills q then
+                  mkS (s_db st) [] Crashed (s_trace st ++ close_all (ord n (s_ws st))) (s_acks st ++ [ANone]) (S n)
+                else
+                  mkS (s_db st) (s_ws st) Running (s_trace st) (s_acks st ++ [AUpd false]) (S n)
+            | EVal v =>    (* req.failed <- nil; global = ...; range watchers *)
                 let '(t, ws, blocked) := notify q v (ord n (s_ws st)) in
                 mkS v ws (if blocked then Wedged else Running) (s_trace st ++ t) (s_acks st ++ [AUpd true]) (S n)
             end
@@ -154,7 +180,7 @@ Section Engine.
   (* the database: accepted updates one at a time, failed ones install nothing *)
   Definition db_step (db : V) (ev : event) : V :=
     match ev with
-    | Update e => match eval e db with Some v => v | None => db end
+    | Update e => match eval e db with EVal v => v | _ => db end
     | _ => db
     end.
   Definition is_stop (ev : event) : bool := match ev with Stop => true | _ => false end.
@@ -164,7 +190,7 @@ Section Engine.
     | [] => []
     | ev :: t =>
         (match ev with
-         | Update e => AUpd (match eval e db with Some _ => true | None => false end)
+         | Update e => AUpd (match eval e db with EVal _ => true | _ => false end)
          | _ => ADone
          end) :: (if is_stop ev then map (fun _ => ANone) t else spec_acks (db_step db ev) t)
     end.
@@ -178,15 +204,20 @@ Section Engine.
   Inductive ostate := ONone | OLive (e : E) (cb : callback) (n : nat).
   Definition deliver (e : E) (cb : callback) (n : nat) (db : V) : list msg * ostate :=
     match eval e db with
-    | None => ([MClose false], ONone)
-    | Some v => ([MUpdate v], if cb n v then OLive e cb (S n) else ONone)
+    | EErr | EPanic => ([MClose false], ONone)        (* closed once with the error / the panic, and dropped *)
+    | EVal v =>
+        match cb n v with
+        | CbOk => ([MUpdate v], OLive e cb (S n))
+        | CbErr => ([MUpdate v], ONone)               (* the callback reported the failure itself: ends silently *)
+        | CbPanic => ([MUpdate v; MClose false], ONone)
+        end
     end.
   Definition spec_step (i : Z) (db : V) (o : ostate) (ev : event) : list msg * ostate :=
     match ev with
     | Update e =>
         match eval e db with
-        | None => ([], o)                                   (* failed update: no state installed *)
-        | Some v => match o with OLive ex cb n => deliver ex cb n v | ONone => ([], ONone) end
+        | EVal v => match o with OLive ex cb n => deliver ex cb n v | ONone => ([], ONone) end
+        | _ => ([], o)                                      (* failed update: no state installed *)
         end
     | Observe j ex cb => if j =? i then deliver ex cb 0%nat db else ([], o)
     | Cancel j => if j =? i then match o with OLive _ _ _ => ([MClose true], ONone) | ONone => ([], ONone) end else ([], o)
@@ -212,6 +243,15 @@ Section Engine.
   Definition observables (st : state) : status * list ack * list (Z * msg) * V :=
     (s_status st, s_acks st, s_trace st, s_db st).
 
+  (* an observer is closed at most once and is told nothing after that *)
+  Fixpoint closed_once (tr : list msg) : bool :=
+    match tr with
+    | [] => true
+    | MUpdate _ :: t => closed_once t
+    | MClose _ :: t => match t with [] => true | _ => false end
+    end.
+  Definition observes (i : Z) (ev : event) : bool := match ev with Observe j _ _ => j =? i | _ => false end.
+
   Definition answered (ev : event) (a : ack) : Prop :=
     match ev with Update _ => exists b, a = AUpd b | _ => a = ADone end.
 End Engine.
@@ -235,16 +275,23 @@ Inductive cexpr :=
 | CAdd (n : Z)       (* $ + n          fails on {}          *)
 | CMulAdd (n : Z)    (* $ * 10 + n     fails on {}          *)
 | CFail              (* (a: 1).b       always fails         *)
-| CFailGt (n : Z).   (* cond {$ > n: (a: 1).b, _: $}   fails on {} ({} > n holds) and above n *)
-Definition ceval (e : cexpr) (db : cval) : option cval :=
+| CFailGt (n : Z)    (* cond {$ > n: (a: 1).b, _: $}   fails on {} ({} > n holds) and above n *)
+| CPanic             (* a rel.Expr of the harness whose Eval panics                           *)
+| CPanicGt (n : Z).  (* a rel.Expr of the harness: $ when it is a number <= n, panics otherwise *)
+Definition ceval (e : cexpr) (db : cval) : eres cval :=
   match e, db with
-  | CConst n, _ => Some (Some n)
-  | CRoot, _ => Some db
-  | CAdd n, Some x => Some (Some (x + n))
-  | CMulAdd n, Some x => Some (Some (x * 10 + n))
-  | CFailGt n, Some x => if x >? n then None else Some (Some x)
-  | _, _ => None
+  | CConst n, _ => EVal (Some n)
+  | CRoot, _ => EVal db
+  | CAdd n, Some x => EVal (Some (x + n))
+  | CMulAdd n, Some x => EVal (Some (x * 10 + n))
+  | CFailGt n, Some x => if x >? n then EErr else EVal (Some x)
+  | CPanic, _ => EPanic
+  | CPanicGt n, Some x => if x >? n then EPanic else EVal (Some x)
+  | CPanicGt n, None => EPanic
+  | _, _ => EErr
   end.
-(* callbacks used by the harness: never fail / fail at the k-th delivery (0-based) *)
-Definition cb_of (k : option nat) : callback cval :=
-  fun n _ => match k with None => true | Some k => negb (Nat.eqb n k) end.
+(* callbacks used by the harness: return an error at the k-th delivery (0-based), panic at the deliveries listed *)
+Definition cb_full (k : option nat) (panics : list nat) : callback cval :=
+  fun n _ => if existsb (Nat.eqb n) panics then CbPanic
+             else match k with Some k => if Nat.eqb n k then CbErr else CbOk | None => CbOk end.
+Definition cb_of (k : option nat) : callback cval := cb_full k [].
